@@ -12,6 +12,7 @@ Run-time contracts on the REAL make_interest / make_data / parse_interest / pars
 """
 import hashlib
 import json
+import struct
 import random
 
 from ndn.encoding import make_data, make_interest, parse_data, parse_interest, MetaInfo, InterestParam
@@ -90,10 +91,56 @@ def _frozen(x):
     return x
 
 
+class Reentrant:
+    """a signer that itself encodes another packet of the same kind each time the encoder calls it (a key store that logs
+    with signed packets, a signer that fetches its certificate ...): the packet being built must come out as with the plain
+    signer.  'ok': the inner packet is encoded and signed; 'rejected': the inner call is refused (hop limit 300 / a signer
+    that fails), which must not leave anything behind either"""
+
+    def __init__(self, inner, kind, mode):
+        self.__dict__.update(_inner=inner, _kind=kind, _mode=mode)
+
+    def _other(self):
+        try:
+            if self._kind == 'data':
+                make_data('/c01/inner/packet/of/a/signer', MetaInfo(freshness_period=7), b'inner' * 9,
+                          P.make_signer({'kind': 'digest'} if self._mode == 'ok' else {'kind': 'shrink', 'S': 40, 'r': 3}))
+            else:
+                make_interest('/c01/inner/interest/of/a/signer', InterestParam(hop_limit=64 if self._mode == 'ok' else 300), b'inner',
+                              P.make_signer({'kind': 'digest'}))
+        except (ValueError, TypeError, struct.error):
+            if self._mode == 'ok':
+                raise
+
+    def write_signature_info(self, *a, **kw):
+        self._other()
+        return self._inner.write_signature_info(*a, **kw)
+
+    def get_signature_value_size(self, *a, **kw):
+        self._other()
+        return self._inner.get_signature_value_size(*a, **kw)
+
+    def write_signature_value(self, *a, **kw):
+        self._other()
+        return self._inner.write_signature_value(*a, **kw)
+
+    def __getattr__(self, item):
+        return getattr(self._inner, item)
+
+    def __setattr__(self, k, v):
+        setattr(self._inner, k, v)
+
+
 def build(case, payload):
     """calls the real encoder; returns (wire_bytes, final_name|None, signer).  The objects handed to the encoder are compared
     with their state before the call."""
-    signer = P.make_signer(case['signer'])
+    plain = P.make_signer(case['signer'])
+    wire, fin = _build(case, payload, Reentrant(plain, case['kind'], case['reentrant']) if case.get('reentrant') and plain is not None
+                       else plain)
+    return wire, fin, plain
+
+
+def _build(case, payload, signer):
     name = name_input(case['name'])
     extra = meta_input(case['meta']) if case['kind'] == 'data' else param_input(case['param'])
     before = (_frozen(name), _frozen(extra), _frozen(payload) if payload is not None else None)
@@ -106,14 +153,14 @@ def build(case, payload):
     if case['kind'] == 'data':
         wire = make_data(name, extra, payload, signer)
         unchanged()
-        return bytes(wire), None, signer
+        return bytes(wire), None
     if case.get('final_name'):
         wire, fin = make_interest(name, extra, payload, signer, need_final_name=True)
         unchanged()
-        return bytes(wire), [bytes(c) for c in fin], signer
+        return bytes(wire), [bytes(c) for c in fin]
     wire = make_interest(name, extra, payload, signer)
     unchanged()
-    return bytes(wire), None, signer
+    return bytes(wire), None
 
 
 _probe_cache = {}
@@ -481,6 +528,43 @@ def gen_cases(tier, seed):
             sp = signer_spec(sk, rng) if sk != 'shrink' else {'kind': 'shrink', 'S': 72, 'r': 69}
             pl = {'len': 70000}
             cases.append(mk(kind, nm(kind, pl, sp), extra(kind), pl, sp, rng))
+    # H. boundaries of the NAME length: the components total T bytes with T around 253 and 65536, and around 253 - 34 and
+    #    65536 - 34 (an Interest that needs a digest component gets 34 more bytes appended: the Name's own Length field changes
+    #    width because of the appended component); with and without a placeholder already in the name; Data names of the same sizes
+    def name_of_total(T, r):
+        for lead in (b'a', b'', b'ab', b'abc', b'abcd'):
+            first = [P.enc_tlv(8, lead)] if lead or T == 2 else []
+            R = T - sum(len(c) for c in first)
+            for hdr in (2, 4, 6):
+                k = R - hdr
+                if k >= 0 and len(P.enc_tlv(8, bytes(k))) == R:
+                    return first + [P.enc_tlv(8, r.randbytes(k))]
+        return None
+    dsn = list(range(-6, 7)) if thorough else [-3, -2, -1, 0, 1, 2]
+    for B in (253, 65536):
+        for base in (B, B - 34):
+            for d in dsn:
+                comps = name_of_total(base + d, rng)
+                if comps is None:
+                    continue
+                for form in ('formal', 'bytes'):
+                    name = {'comps': [c.hex() for c in comps], 'form': form}
+                    for sk in ('none', 'digest', 'hmac') if not thorough else SIGNER_KINDS:
+                        sp = signer_spec(sk)
+                        for pl in (None, {'len': 0}, {'len': 5}):
+                            cases.append(mk('interest', name, gen_param(rng, rng.choice([0, 1, 4, 16])), pl, sp, rng))
+                            if pl is not None or sp is not None:
+                                ph = dict(name, comps=name['comps'][:1] + [P.enc_tlv(P.T_PARAMS, bytes(32)).hex()] + name['comps'][1:])
+                                cases.append(mk('interest', ph, gen_param(rng, 0), pl, sp, rng))
+                        cases.append(mk('data', name, gen_meta(rng, rng.choice([None, 2])), {'len': 3}, sp, rng))
+    # I. signers that encode another packet while they are being asked (re-entrant use of the encoder)
+    for mode in ('ok', 'rejected'):
+        for kind in ('data', 'interest'):
+            for sk in [k for k in SIGNER_KINDS if k != 'none'] + ['shrink']:
+                for rep in range(6 if sk in ('p256', 'p384', 'p521', 'shrink') else 2):
+                    sp = signer_spec(sk, rng) if sk != 'shrink' else {'kind': 'shrink', 'S': 72, 'r': rng.choice([0, 1, 40, 70, 71])}
+                    pl = rng.choice([None, {'len': 0}, {'len': rng.randint(1, 60)}])
+                    cases.append(mk(kind, nm(kind, pl, sp), extra(kind), pl, sp, rng, reentrant=mode, rep=rep))
     # G. random draws over the whole product (names of up to 4 / 6 components, all forms)
     for _ in range(30000 if thorough else 1500):
         kind = rng.choice(['data', 'interest'])
